@@ -3,24 +3,61 @@ from __future__ import annotations
 
 import multiprocessing as mp
 import os
+import traceback
 
 
 def nprocs():
     return int(os.environ.get("VERIF_PROCS", "0") or 0) or min(16, os.cpu_count() or 1)
 
 
+class LibAbort(Exception):
+    """library code raised inside a worker where the check did not expect it; carries an Acc with the violation"""
+
+    def __init__(self, acc):
+        super().__init__("library raised inside a worker shard")
+        self.acc = acc
+
+
+class _Guard:
+    """runs fn(item) in the worker; an exception is classified there (tracebacks do not survive pickling)"""
+
+    def __init__(self, fn):
+        self.fn = fn
+
+    def __call__(self, item):
+        try:
+            return ("ok", self.fn(item))
+        except Exception as e:  # noqa: BLE001
+            from vf.core.evidence import exc_origin, exc_site
+            return ("exc", exc_origin(e), exc_site(e), type(e).__name__, str(e)[:300], "".join(traceback.format_exception(e))[-3000:], repr(item)[:300])
+
+
+def _unwrap(r):
+    if r[0] == "ok":
+        return r[1]
+    _, origin, site, tname, msg, tb, item = r
+    if origin == "lib":
+        # the library raised where the worker did not expect it: a behaviour change, reported as a violation
+        from vf.core.evidence import Acc
+        acc = Acc()
+        acc.violation("worker-aborted/%s/%s" % (tname, site), "library raised %s in a worker shard (%s): %s" % (tname, item, msg), {"traceback": tb[-1500:], "shard": item})
+        raise LibAbort(acc)
+    raise RuntimeError("harness fault in worker shard %s: %s: %s\n%s" % (item, tname, msg, tb))
+
+
 def pmap(fn, items, procs=None, chunksize=1):
-    """Ordered parallel map over picklable items; fn is a module-level function returning an Acc (or anything picklable)."""
+    """Ordered parallel map over picklable items; fn is a module-level function returning an Acc."""
     items = list(items)
     procs = procs or nprocs()
+    g = _Guard(fn)
     if procs <= 1 or len(items) <= 1:
         for it in items:
-            yield fn(it)
+            yield _unwrap(g(it))
         return
     ctx = mp.get_context("fork")
     with ctx.Pool(min(procs, len(items))) as pool:
-        for r in pool.imap(fn, items, chunksize):
-            yield r
+        for r in pool.imap(g, items, chunksize):
+            yield _unwrap(r)
 
 
 def chunks(lo, hi, size):
